@@ -1,5 +1,6 @@
 import logging
 from collections.abc import Callable
+from threading import RLock
 from typing import Any, TypeVar
 
 from reactivex import Observable, abc, empty
@@ -10,7 +11,7 @@ from reactivex.disposable import (
     SerialDisposable,
     SingleAssignmentDisposable,
 )
-from reactivex.internal import add_ref, curry_flip, noop
+from reactivex.internal import add_ref, curry_flip, noop, synchronized
 from reactivex.subject import Subject
 
 log = logging.getLogger("Rx")
@@ -73,16 +74,22 @@ def window_(
         window_subject: Subject[_T] = Subject()
         d = CompositeDisposable()
         r = RefCountDisposable(d)
+        # The boundaries usually arrive on another thread than the elements:
+        # replacing the window must not interleave with a delivery into it
+        lock = RLock()
 
         observer.on_next(add_ref(window_subject, r))
 
+        @synchronized(lock)
         def on_next_window(x: _T) -> None:
             window_subject.on_next(x)
 
+        @synchronized(lock)
         def on_error(err: Exception) -> None:
             window_subject.on_error(err)
             observer.on_error(err)
 
+        @synchronized(lock)
         def on_completed() -> None:
             window_subject.on_completed()
             observer.on_completed()
@@ -93,6 +100,7 @@ def window_(
             )
         )
 
+        @synchronized(lock)
         def on_next_observer(w: Observable[_T]):
             nonlocal window_subject
             window_subject.on_completed()
@@ -133,16 +141,22 @@ def window_when_(
         d = CompositeDisposable(m)
         r = RefCountDisposable(d)
         window: Subject[_T] = Subject()
+        # The closing observables usually fire on another thread than the
+        # elements: replacing the window must not interleave with a delivery
+        lock = RLock()
 
         observer.on_next(add_ref(window, r))
 
+        @synchronized(lock)
         def on_next(value: _T) -> None:
             window.on_next(value)
 
+        @synchronized(lock)
         def on_error(error: Exception) -> None:
             window.on_error(error)
             observer.on_error(error)
 
+        @synchronized(lock)
         def on_completed() -> None:
             window.on_completed()
             observer.on_completed()
@@ -160,6 +174,7 @@ def window_when_(
                 observer.on_error(exception)
                 return
 
+            @synchronized(lock)
             def on_completed():
                 nonlocal window
                 window.on_completed()
